@@ -7,7 +7,7 @@ ROOT = os.path.dirname(os.path.dirname(os.path.abspath(__file__)))
 CLAIMED = {
  "C01": ("exploration",
          "differential property testing: grammar-generated GRL rule sets and fact stores (proptest-driven, shrunk) judged by an independent tri-state reference evaluator (REF) that runs the pass itself; plus an exhaustive operator x value-kind sweep",
-         "Firing sequence, store after every firing, final store and counters are compared with REF for hundreds of thousands of generated programs per run, through the GRL parser and through directly built Rule values, via execute_with_callback and execute. Detects fired-although-false, not-fired-although-true and wrong assignment values for the typed core of GRL on the domain where the documentation defines the semantics. No claim beyond the generated sizes; cases REF calls undefined are counted, not judged.",
+         "Firing sequence, store after every firing, final store and counters are compared with REF for hundreds of thousands of generated programs per run, through the GRL parser and through directly built Rule values, via execute_with_callback and execute. Detects fired-although-false, not-fired-although-true and wrong assignment values for the typed core of GRL on the domain where the documentation defines the semantics. One case in four calls its numeric fields by names that end like an exponent or in a digit (A.xe, B.e, C.x1e), one in four writes arithmetic without blanks. No claim beyond the generated sizes; cases REF calls undefined are counted, not judged.",
          "Trusts REF (harness/src/typed.rs, written from docs and the statement; undefined classes in DESIGN.md §4.1). Exists/forall/accumulate/function-call conditions are outside the typed core.",
          "DESIGN.md §6 C01, §4.1"),
  "C02": ("exploration",
@@ -41,12 +41,12 @@ CLAIMED = {
          "Grammar = the documented one minus aspirational constructs; Rule.description is not judged (the statement does not list it). Each known finding's switch is armed only while its `known:` line is present.",
          "DESIGN.md §6 C04, §10.5"),
  "C05": ("exploration",
-         "fuzzing and property-based testing of 14 parser / evaluator entry points with the oracle 'the call returns': random search over three input families (raw bytes, token soups in valid skeletons, 12 mutation operators over valid seeds and grammar-printed rules) shrunk by proptest, exhaustive single-edit enumeration of every seed (truncation at every byte, every deletion, multi-byte insertion at every position, extreme numbers, bracket groups), exhaustive deep-nesting/long-chain enumeration to 4 KiB with large cases in a child process (stack overflow and hang become exit statuses); exhaustive module-import-graph shapes for parse_with_modules (stacked diamonds, complete DAGs, fans, refused back edges) in a child with a 3 GiB address-space cap; thorough adds the engine built at opt-level 0 with overflow checks and a coverage-guided libFuzzer+ASan campaign per entry point",
+         "fuzzing and property-based testing of 14 parser / evaluator entry points with the oracle 'the call returns': random search over three input families (raw bytes, token soups in valid skeletons, 12 mutation operators over valid seeds and grammar-printed rules) shrunk by proptest, exhaustive single-edit enumeration of every seed (truncation at every byte, every deletion, multi-byte insertion at every position, extreme numbers, bracket groups), seeds whose quoted names are widened to long runs of mixed-width characters before one late edit, exhaustive deep-nesting/long-chain enumeration to 4 KiB with large cases in a child process (stack overflow and hang become exit statuses); exhaustive module-import-graph shapes for parse_with_modules (stacked diamonds, complete DAGs, fans, refused back edges) in a child with a 3 GiB address-space cap; thorough adds the engine built at opt-level 0 with overflow checks and a coverage-guided libFuzzer+ASan campaign per entry point",
          "Every one of ~500k (quick) / ~9M (thorough) generated texts per run, on each entry point it applies to, must come back as a value or an error: a panic (any site), a stack overflow, an abort or a call that outlives the watchdog is a violation unless it is the recorded finding C05-F10 (super-cubic regex matching in the third-party matcher), whose witness is replayed on every run. While F10 stands, texts for the regex-based GRL entry points are bounded (condition atoms <= 48 characters, rule text <= 192 bytes) so that the search can continue.",
          "Termination = returns within the 120 s watchdog (wall clock, as the quantifier says; slowest case seen under the F10 bound: 3.3 s). Stack depth is a property of the build: the default harness build has the engine at opt-level 2, the thorough command adds the opt-level-0 build.",
          "DESIGN.md §6 C05, §10.5"),
  "C06": ("exploration",
-         "stateful property testing of the incremental RETE engine: generated single-type rule sets converted by the real GRL loader with recorder-wrapped actions, histories of insert/update/retract/fire_all/reset, judged by REF on the matched fact's contents at firing time, a completeness oracle for every fire_all of the all-noop sub-domain, and a 4-view working-memory invariant; exhaustive short histories",
+         "stateful property testing of the incremental RETE engine: generated single-type rule sets converted by the real GRL loader with recorder-wrapped actions, histories of insert/update/retract/fire_all/reset/set_conflict_resolution_strategy, judged by REF on the matched fact's contents at firing time, a completeness oracle for every fire_all of the all-noop sub-domain, and a 4-view working-memory invariant; exhaustive short histories",
          "Every firing in every generated history is checked at the moment it happens: the matched handle (exposed by a hook) is live and REF says the rule's condition is true of exactly the contents the engine presents; when actions are no-ops and rules no-loop, every fire_all fires each armed rule that a newly written live fact satisfies, and nothing that no live fact satisfies; updates may change only the type of a value (type twins), and where REF is undefined a fresh engine holding only that rule is asked whether it fires for the same contents; all working-memory views agree after every operation and retracted handles are rejected. Bounded by <= 6 facts, <= 3 types, <= 4 rules, histories <= 15.",
          "Trusts REF on a well-typed sub-core (multi-type joins, multi-operator arithmetic excluded); facts may lack a field: a firing is flagged only if the condition is false under both readings of an absent field (null / atom false), demanded only if true under both; cross-type activations are not judged.",
          "DESIGN.md §6 C06"),
@@ -57,7 +57,7 @@ CLAIMED = {
          "DESIGN.md §6 C07"),
  "C08": ("exploration",
          "model-based property testing of truth maintenance: generated and exhaustively enumerated histories of explicit/logical insertions, extra justifications and retractions against a least-fixpoint support model, compared for every handle after every operation",
-         "After every operation of every history, presence in working memory of every handle ever issued equals the model's least-fixpoint support verdict; the set returned by retract_with_cascade equals the model's removed set; TMS flags agree. Exhaustive to 8-10 operations on small fact counts (millions of histories per quick run).",
+         "After every operation of every history, presence in working memory of every handle ever issued equals the model's least-fixpoint support verdict; the set returned by retract_with_cascade equals the model's removed set; TMS flags agree. Exhaustive to 8-10 operations on small fact counts (millions of histories per quick run). Some plain facts bypass the TMS (working_memory_mut().insert / never registered): present, legal premises, their retraction cascades.",
          "Acyclic support only (premises are live and older than the fact, as the quantifier says); no rules loaded.",
          "DESIGN.md §6 C08"),
  "C09": ("exploration",
@@ -67,7 +67,7 @@ CLAIMED = {
          "DESIGN.md §6 C09"),
  "C10": ("exploration",
          "differential (before/after) property testing of failed backward-chaining proofs, and model-based testing of the undo-frame API against a snapshot-stack model with exhaustive enumeration of all operation sequences of length 5-6",
-         "Whenever a generated query is reported not provable the caller's facts are deeply equal to what they were; every sequence of begin/commit/rollback/set/set_nested/remove (exhaustive to length 5 in quick, 6 in thorough, random to 10) leaves get_all_facts(), snapshot() and the open-frame count equal to the snapshot-stack model after every operation.",
+         "Whenever a generated query is reported not provable the caller's facts are deeply equal to what they were (rules may carry an action that fails at run time; one case in four is asked inside a caller-owned undo frame, which must still be the caller's afterwards); every sequence of begin/commit/rollback/set/set_nested/remove (exhaustive to length 5 in quick, 6 in thorough, random to 10) leaves get_all_facts(), snapshot() and the open-frame count equal to the snapshot-stack model after every operation.",
          "Open-frame count read through hook verif_undo_depth; engine panics/errors during a query are counted, not judged.",
          "DESIGN.md §6 C10"),
  "C11": ("exploration",
@@ -77,8 +77,8 @@ CLAIMED = {
          "DESIGN.md §6 C11"),
  "C12": ("exploration",
          "model-based property testing of windows under an injected clock: generated event sequences in all arrival orders (exhaustive over all orders of 5-6 events) against interval arithmetic, a retention validity predicate and harness-side aggregate folds",
-         "Tumbling placement (WindowedStream, WindowManager, TimeWindow, StreamAlphaNode), sliding retention after every record (nothing older than the span, nothing younger dropped except oldest-first by the cap, either notion of oldest accepted) and count/sum/average/min/max against a fold over exactly the window's events.",
-         "StreamAlphaNode judged relative to the injected clock (hook); NaN payloads and durations < 1 ms outside the domain; buffer order not judged.",
+         "Tumbling placement (WindowedStream, WindowManager, TimeWindow, StreamAlphaNode), sliding retention after every record (nothing older than the span, nothing younger dropped except oldest-first by the cap, either notion of oldest accepted) and count/sum/average/min/max against a fold over exactly the window's events. Tumbling durations with a sub-millisecond rest are judged by what every reading shares (disjoint windows, every held event inside its window, held once, none lost).",
+         "StreamAlphaNode judged relative to the injected clock (hook); NaN payloads and durations < 1 ms outside the domain; buffer order not judged; how a duration with a sub-millisecond rest is laid on whole-millisecond timestamps is not judged.",
          "DESIGN.md §6 C12"),
  "C14": ("exploration",
          "differential property testing over ALL arrival interleavings: generated and exhaustively enumerated pairs of event sequences, every merge of the two arrival orders executed, compared as multisets with a nested-loop reference join; eviction-aware validity predicate when watermarks advance",
@@ -87,22 +87,22 @@ CLAIMED = {
          "DESIGN.md §6 C14"),
  "C15": ("exploration",
          "exhaustive small-scope enumeration of knowledge-base operation sequences against an ordered-list model, and Wing-Gong linearizability checking of recorded 3-thread histories under a schedule-perturbation hook",
-         "All 25^4 (quick) / 25^5 (thorough) operation sequences and 60k-1M random ones are compared observer by observer with the model after every step; 16k-50k concurrent programs x 50-500 repetitions are checked for linearizability against the same model, plus deadlock detection; part many drives 21-60 rules (listing order and lookup against a stable-sort model).",
+         "All 25^4 (quick) / 25^5 (thorough) operation sequences and 60k-1M random ones are compared observer by observer with the model after every step; 16k-50k concurrent programs x 50-500 repetitions are checked for linearizability against the same model (a thread may take a clone() mid-history: its listing, names, count and lookups must describe one state within the call), plus deadlock detection; part many drives 21-60 rules (listing order and lookup against a stable-sort model).",
          "Schedules are sampled (OS + yield hook), not enumerated; the version is modelled relationally (must grow on every real change; rejected duplicate add must not move it).",
          "DESIGN.md §6 C15, §8"),
  "C16": ("exploration",
-         "differential property testing of four keyed shortcuts against the plain computation over generated histories with type-twin values (5/\"5\"/5.0, 0.0/-0.0, NaN, true/\"true\"), exhaustive short histories for the alpha and beta indexes",
+         "differential property testing of four keyed shortcuts against the plain computation over generated histories with type-twin values (5/\"5\"/5.0, 0.0/-0.0, NaN, true/\"true\"), exhaustive short histories for the alpha and beta indexes, exhaustive pair tables of unequal values a key rendering could write alike (integers equal as f64; separator-bearing string elements, flattened nesting, case/blank/composition/escape variants)",
          "Every indexed filter equals the linear == scan; every beta lookup returns exactly the live facts carrying the key; every memoised evaluation equals evaluate_typed; the conclusion index (directly and through BackwardEngine) proposes every enabled rule with a Set on the goal field.",
          "Beta index judged with a validity interval where == and rendering differ (±0.0, NaN); extra candidates from the conclusion index are allowed.",
          "DESIGN.md §6 C16"),
  "C17": ("exploration",
          "model-based property testing of the proof graph: exhaustive enumeration (up to handle renaming) and random generation of insert_proof/invalidate_handle/is_proven histories in every insertion order against a justification-graph fixpoint model",
-         "After every operation get_node().valid, is_proven and lookup_by_key equal 'not invalidated and at least one surviving justification' for every handle; exhaustive to 6 operations on 3 handles and 5 on 4 handles in quick (3.4M histories), deeper in thorough.",
+         "After every operation get_node().valid, is_proven and lookup_by_key equal 'not invalidated and at least one surviving justification' for every handle; exhaustive to 6 operations on 3 handles and 5 on 4 handles in quick (3.4M histories), deeper in thorough. One history in three files some insertions of a handle under a second key (judged where every reading agrees).",
          "A handle that was ever invalid is not reused as a premise (stricter reading of the quantifier).",
          "DESIGN.md §6 C17"),
  "C13": ("exploration",
          "model-based property testing (proptest-driven byte strings decoded into timestamp sequences + exhaustive small-scope enumeration) against an executable watermark/late-data model",
-         "Every prefix of every generated sequence is compared with a model written from the statement (watermark value and monotonicity, accepted/side-output/dropped routing, statistics, conservation). Random search over lengths up to 12 plus complete enumeration of short sequences over a 6-value domain for 20 configurations; part components drives WatermarkGenerator and LateDataHandler directly (with side-output drains) against the same model; bounded by those sizes, no claim beyond them.",
+         "Every prefix of every generated sequence is compared with a model written from the statement (watermark value and monotonicity, accepted/side-output/dropped routing, statistics, conservation); delays and latenesses cover the whole millisecond range and one case in three carries a sub-millisecond rest, which must change nothing observable. Random search over lengths up to 12 plus complete enumeration of short sequences over a 6-value domain for 20 configurations; part components drives WatermarkGenerator and LateDataHandler directly (with side-output drains) against the same model; bounded by those sizes, no claim beyond them.",
          "Trusts the harness model (60 lines, written from the statement); the Periodic strategy is driven with real sleeps and judged against the watermark observed through the API just before each call; Custom (no-op) is outside the statement.",
          "DESIGN.md §6 C13"),
 }
